@@ -25,6 +25,9 @@ Conventions
 ``ScriptedStochasticPolicy(A, L, c)``  ``sample(o, key) = o @ A`` (key recorded, not used),
                                        ``log_probability(o, a) = (o @ L)[:, 0] + a @ c``
 ``Scale(s)``                           ``x -> s * x`` (exact stand-in for a normalisation layer)
+``Affine(g, b)``                       ``x -> g * x + b`` (does not commute with relu: stage order is visible)
+``make_model_based_encoder_cfg``       ``ModelBasedEncoder`` through its REAL constructor (activation name, activation-in-last-layer
+                                       flag), sub-networks swapped for tables afterwards
 ``make_double_q``, ``make_sale``, ``make_model_based_encoder``
                                        the repository's own wrapper classes around stub sub-networks
 
@@ -171,6 +174,44 @@ def make_model_based_encoder(zs_table, za_table, zsa_table, model_table, zs_dim,
             self.encoder_activation_in_last_layer = False
 
     return StubModelBasedEncoder()
+
+
+class Affine(nnx.Module):
+    """``x -> gain * x + shift`` (static numbers): the affine part of a normalisation layer.  With dyadic gain / shift the
+    map is exact on dyadic inputs; with ``shift != 0`` it does not commute with relu-like activations, so the ORDER of a
+    normalisation stage and an activation stage is visible in the values."""
+
+    def __init__(self, gain, shift):
+        self.gain = float(gain)
+        self.shift = float(shift)
+
+    def __call__(self, x):
+        return self.gain * x + self.shift
+
+
+def make_model_based_encoder_cfg(zs_table, za_table, zsa_table, model_table, zs_dim, activation="relu",
+                                 encoder_activation_in_last_layer=False, ln_gain=2.0, ln_shift=0.0, zsa_module=None):
+    """The repository's ``ModelBasedEncoder`` built by its REAL constructor in a given configuration.
+
+    ``activation`` (name of a ``flax.nnx`` function, resolved by the real constructor) and
+    ``encoder_activation_in_last_layer`` go through ``ModelBasedEncoder.__init__``; the real ``encode_zs`` /
+    ``encode_zsa`` / ``model_head`` run unmodified.  Afterwards only the sub-networks are swapped for table lookups
+    (``zs``, ``za``, ``zsa``, ``model`` = ``LinearTable``; ``zs_layer_norm`` = ``Affine(ln_gain, ln_shift)``), so
+    ``encode_zs(onehot(s)) = [activation](ln_gain * zs_table[s] + ln_shift)``.
+    ``zsa_module``: optional replacement for the state-action layer (a module with a ``kernel`` parameter).
+    """
+    from rl_blox.blox.embedding.model_based_encoder import ModelBasedEncoder
+
+    enc = ModelBasedEncoder(
+        n_state_features=1, n_action_features=1, n_bins=1, zs_dim=int(zs_dim), za_dim=1, zsa_dim=1, hidden_nodes=[],
+        activation=activation, encoder_activation_in_last_layer=encoder_activation_in_last_layer, rngs=nnx.Rngs(0),
+    )
+    enc.zs = LinearTable(zs_table)
+    enc.za = LinearTable(za_table)
+    enc.zsa = LinearTable(zsa_table) if zsa_module is None else zsa_module
+    enc.model = LinearTable(model_table)
+    enc.zs_layer_norm = Affine(ln_gain, ln_shift)
+    return enc
 
 
 def split(module):
